@@ -210,6 +210,11 @@ func (be *buildEnv) FetchSourcePackage(ctx context.Context, sourceType string, u
 			return resp, err
 		}
 	}
+	if len(p.Extras) > 0 {
+		if err := gen.Materialise(targetDir, gen.TreeSpec{Nodes: p.Extras}); err != nil {
+			return resp, fmt.Errorf("harness: cannot materialise package extras: %w", err)
+		}
+	}
 	if p.Commit != "" {
 		resp.PackageMeta = sourcebundle.PackageMetaWithGitMetadata(p.Commit, p.Message)
 	}
@@ -554,6 +559,7 @@ type buildOpts struct {
 	Yield      func()
 	OnCall     func(be *buildEnv, b *sourcebundle.Builder, ordinal int, phase string)
 	KeepOpen   bool // do not call Close
+	KeepDir    bool // the target directory exists already (empty); do not recreate it
 }
 
 // runBuild builds the world into dir (created fresh).
@@ -568,9 +574,11 @@ func runBuild(w *gen.World, dir string, o buildOpts) *buildResult {
 	be.faults = o.Faults
 	be.limit = o.Limit
 	be.yield = o.Yield
-	if err := freshDir(dir); err != nil {
-		res.NewErr = err
-		return res
+	if !o.KeepDir {
+		if err := freshDir(dir); err != nil {
+			res.NewErr = err
+			return res
+		}
 	}
 	b, err := sourcebundle.NewBuilder(dir, be, be)
 	if err != nil {
